@@ -481,7 +481,7 @@ impl std::fmt::Display for Scad {
                 autovec,
                 convexity,
             } => {
-                if *auto_is_vec {
+                if !*auto_is_vec {
                     writeln!(
                         f,
                         "resize(newsize={}, auto={}, convexity={}) {{",
